@@ -16,7 +16,7 @@ func init() {
 	Register(&c04{base{
 		id: "C04", level: "exploration",
 		technique: "by-construction expected bytes (alternating literal segments and tags with independently known values) + non-interference and spy monitors for comment and verbatim bodies; exhaustive single-byte and byte-pair grids next to each tag kind",
-		rule: "case = template seg0 tag1 seg1 ... tagN segN whose segments are arbitrary bytes (all 256 values, invalid UTF-8, NUL, lone braces, quotes, backslashes, CR/LF) and whose tags are {{ v }} with a unique marker value, a true/false if, a set, or a comment; expected output = segments joined by the known tag values. " +
+		rule: "case = template seg0 tag1 seg1 ... tagN segN whose segments are arbitrary bytes (all 256 values, invalid UTF-8, NUL, lone braces, quotes, backslashes, CR/LF) and whose tags are {{ v }} with a unique marker value, a true/false if, a set, or a comment; expected output = segments joined by the known tag values, required of Render and of RenderTo into a writer that implements io.Writer only (writes concatenated in call order). " +
 			"Comment and verbatim bodies contain spies (tick(), boom filter, include of a missing template) and context variables; the spies must record 0 calls and three different contexts must give identical output without any context marker. " +
 			"Non-trivial: a segment with a non-ASCII or delimiter-like byte next to a tag, or a source longer than 4096 bytes. Distinct = distinct source bytes.",
 		assumptions: []string{
@@ -28,7 +28,7 @@ func init() {
 }
 
 func (p *c04) RequiredCounters(string) []string {
-	return []string{"class:byte-grid", "class:random-segments", "class:comment", "class:verbatim", "long-sources", "escape-checks"}
+	return []string{"plain-writer-renders", "class:byte-grid", "class:random-segments", "class:comment", "class:verbatim", "long-sources", "escape-checks"}
 }
 
 func c04BadSegment(seg string, tagFollows bool) bool {
@@ -114,10 +114,44 @@ func (p *c04) checkExact(rec *core.Recorder, class, src, want string, nontrivial
 			cs, "")
 		return
 	}
+	// the same through RenderTo into a writer that is nothing but an io.Writer (a file, a socket, an HTTP response): what
+	// arrives there, concatenated in the order of the Write calls, is the same text
+	sink := &c04Sink{}
+	var toErr error
+	panicked, site, pv, stack := core.Guard(func() {
+		toErr = freshEngine(map[string]string{"main": src}).RenderTo(sink, "main", c04Ctx())
+	})
+	rec.Count("plain-writer-renders", 1)
+	if panicked {
+		rec.Violate("panic", "panic@"+site, "engine panicked in RenderTo: "+pv, cs, stack)
+		return
+	}
+	if got := string(sink.b); toErr != nil || got != want {
+		i := 0
+		for i < len(got) && i < len(want) && got[i] == want[i] {
+			i++
+		}
+		rec.Violate("exact-text", core.SigHash("c04-writer", src),
+			fmt.Sprintf("RenderTo into a plain io.Writer delivered other text than Render (err=%v, %d Write calls): differs at byte %d: got …%q want …%q; source %s", toErr, sink.calls, i, core.Trunc(got[min(i, len(got)):], 40), core.Trunc(want[min(i, len(want)):], 40), core.Trunc(fmt.Sprintf("%q", src), 300)),
+			cs, "")
+		return
+	}
 	if rec.WantSample(class) {
 		cs["output"] = core.Trunc(fmt.Sprintf("%q", want), 300)
 		rec.Sample(class, cs)
 	}
+}
+
+// c04Sink implements io.Writer and nothing else
+type c04Sink struct {
+	b     []byte
+	calls int
+}
+
+func (s *c04Sink) Write(p []byte) (int, error) {
+	s.calls++
+	s.b = append(s.b, p...)
+	return len(p), nil
 }
 
 func (p *c04) Run(rec *core.Recorder, seed uint64, idx int, tier string) {
